@@ -9,7 +9,7 @@
    consumed (POSTCONDITION AllConsumed); each event's verdict (ok / skip / a
    diagnosis) goes to the verdict file, so that one rejected event never hides
    the rest of the trace. *)
-EXTENDS SemOverflow, AsCodedOverflow, TLC, TLCExt, Json, IOUtils, CSV
+EXTENDS SemOverflow, AsCodedOverflow, SemScaled, TLC, TLCExt, Json, IOUtils, CSV
 
 Tr == ndJsonDeserialize(IOEnv.TRACE)
 Insts == ndJsonDeserialize(IOEnv.INSTS)
@@ -21,6 +21,12 @@ Verdict0(e, i) ==
     CASE e.e = "OvBin" -> JudgeOvBin(e, i)
       [] e.e = "OvUn" -> JudgeOvUn(e, i)
       [] e.e = "OvConvInt" -> JudgeOvConvInt(e, i)
+      [] e.e = "ScBin" -> JudgeScBin(e, i)
+      [] e.e = "ScUn" -> JudgeScUn(e, i)
+      [] e.e = "ScCmp" -> JudgeScCmp(e, i)
+      [] e.e = "ScIdent" -> JudgeScIdent(e, i)
+      [] e.e = "ScConv" -> JudgeScConv(e, i)
+      [] e.e = "ScRoundTrip" -> JudgeScRoundTrip(e, i)
       [] OTHER -> [d |-> "unknown_event", nt |-> FALSE, cls |-> <<e.e>>]
 
 \* For a rejected event: does it at least equal what the as-coded model of the *unchanged* library
